@@ -35,9 +35,11 @@ pub fn put_display<W: fmt::Write, T: DisplayText>(f: &mut W, x: &T) -> (r: core:
 /// `{:>width$}` on a &str: the text right-aligned in `width` columns (std pads with spaces up to `width` CHARACTERS; never truncates)
 #[verifier::external_body]
 pub fn put_padded_right<W: fmt::Write>(f: &mut W, s: &str, width: usize) -> (r: core::result::Result<(), fmt::Error>)
-    ensures r is Ok ==> final(f).text() == old(f).text() + spaces(if width as int > s@.len() { (width as int - s@.len()) as nat } else { 0 }) + s@,
+    ensures r is Ok ==> final(f).text() == old(f).text() + pad_right(s@, width as int),
 { unimplemented!() }
 pub open spec fn spaces(n: nat) -> Seq<char> { Seq::new(n, |i: int| ' ') }
+/// `{:>w$}` of s
+pub open spec fn pad_right(s: Seq<char>, w: int) -> Seq<char> { spaces(if w > s.len() { (w - s.len()) as nat } else { 0 }) + s }
 /// ToString::to_string (std blanket impl over Display)
 #[verifier::external_body]
 pub fn to_string_of<T: DisplayText>(x: &T) -> (r: String)
